@@ -305,7 +305,7 @@ def unit_connection_made():
                 continue
             fields1 = {k: v for k, v in p.heap.items() if k[0] == 'f' and k[1] == pr.oid}
             ctx.oblige('frame.connecting_replaces_no_protocol_state', p,
-                       B(set(fields1) == set(fields0) and all(fields1[k] is fields0[k] for k in fields0)),
+                       B(all(k in fields1 and fields1[k] is fields0[k] for k in fields0)),     # (new attributes are nobody's business)
                        clause='every request to be told about disconnection, made before or after the loss (also before the transport is attached), is notified exactly once')
             q = ctx.models.glog(p, 'queued')
             chain = ctx.models.glog(p, 'chain')
